@@ -80,7 +80,30 @@ struct EeSpec {
     asn: Res,
     nb: i64,
     na: i64,
+    /// 0 = the EE certificate profile of RFC 6487 as the library's builder is
+    /// meant to be used; otherwise an index into `EE_PROFILES`: a certificate the
+    /// CA signed that departs from the profile in one respect.
+    profile: u8,
 }
+
+/// EE certificates the CA could sign that depart from the RFC 6487 profile.
+/// Whether each is acceptable is not written down here: the statement says the
+/// object is accepted only if "the EE certificate validates under the issuer
+/// (C01)", so the harness asks `Cert::validate_ee_at` about the very same
+/// certificate and demands that the object validator is not more lenient.
+const EE_PROFILES: [&str; 11] = [
+    "standard",
+    "no-sia",
+    "sia-rpki-notify-only",
+    "sia-signed-object-and-ca-repository",
+    "basic-constraints-ca-true",
+    "basic-constraints-ca-false-present",
+    "key-usage-ca",
+    "no-crl-uri",
+    "no-ca-issuer",
+    "router-extended-key-usage",
+    "no-aki",
+];
 
 const T_NB: i64 = 1_704_067_200; // 2024-01-01T00:00:00Z
 const T_NA: i64 = 1_811_807_999; // 2027-05-31T23:59:59Z
@@ -202,10 +225,32 @@ impl World {
             KeyUsage::Ee,
             if spec.trim { Overclaim::Trim } else { Overclaim::Refuse },
         );
-        tbs.set_authority_key_identifier(Some(self.pool.info(spec.aki).key_identifier()));
-        tbs.set_crl_uri(Some(self.uri.clone()));
-        tbs.set_ca_issuer(Some(self.uri.clone()));
-        tbs.set_signed_object(Some(self.uri.clone()));
+        let prof = EE_PROFILES[spec.profile as usize % EE_PROFILES.len()];
+        if prof != "no-aki" {
+            tbs.set_authority_key_identifier(Some(self.pool.info(spec.aki).key_identifier()));
+        }
+        if prof != "no-crl-uri" {
+            tbs.set_crl_uri(Some(self.uri.clone()));
+        }
+        if prof != "no-ca-issuer" {
+            tbs.set_ca_issuer(Some(self.uri.clone()));
+        }
+        match prof {
+            "no-sia" => {}
+            "sia-rpki-notify-only" => tbs.set_rpki_notify(Some(uri::Https::from_str("https://verif.example/notify.xml").unwrap())),
+            "sia-signed-object-and-ca-repository" => {
+                tbs.set_signed_object(Some(self.uri.clone()));
+                tbs.set_ca_repository(Some(self.uri.clone()));
+            }
+            _ => tbs.set_signed_object(Some(self.uri.clone())),
+        }
+        match prof {
+            "basic-constraints-ca-true" => tbs.set_basic_ca(Some(true)),
+            "basic-constraints-ca-false-present" => tbs.set_basic_ca(Some(false)),
+            "key-usage-ca" => tbs.set_key_usage(KeyUsage::Ca),
+            "router-extended-key-usage" => tbs.set_extended_key_usage(Some(rpki::repository::cert::ExtendedKeyUsage::create_router())),
+            _ => {}
+        }
         apply_res_ip(&mut tbs, true, &spec.v4);
         apply_res_ip(&mut tbs, false, &spec.v6);
         apply_res_as(&mut tbs, &spec.asn);
@@ -665,11 +710,32 @@ fn run_case(ctx: &mut Ctx, w: &mut World, c: &Case) -> Option<bool> {
     let b = build(w, c);
     let t = eval_time(w, c);
     let ee_viol = w.ee_violation(&c.ee, t);
+    // a certificate off the profile: C01's validator decides about the very same certificate
+    let mut profile_viol: Option<String> = None;
+    if c.ee.profile != 0 && ee_viol.is_none() {
+        let prof = EE_PROFILES[c.ee.profile as usize % EE_PROFILES.len()];
+        let ee_der = w.ee(&c.ee);
+        let strict = c.strict;
+        let ta = w.ta.clone();
+        let verdict = ctx.no_panic("validate_ee_at-on-profile-variant", || json!({"profile": prof, "ee_cert": hex(&ee_der)}), || {
+            Cert::decode(ee_der.as_slice()).ok().map(|cert| cert.validate_ee_at(&ta, strict, time(t)).map(|_| ()).map_err(|e| e.to_string()))
+        });
+        match verdict {
+            Some(Some(Ok(()))) => ctx.obs(&format!("ee_profile_{}_accepted_by_validate_ee_at", prof), 1),
+            Some(Some(Err(_))) | Some(None) => {
+                ctx.obs(&format!("ee_profile_{}_refused_by_validate_ee_at", prof), 1);
+                profile_viol = Some(format!("ee-off-profile-refused-by-validate_ee_at:{}", prof));
+            }
+            None => return None,
+        }
+    }
     let crl_ok = !matches!(c.eval, Eval::Process { crl_ok: false });
     let violated: Option<String> = if c.tamper != Tamper::None {
         Some(format!("{:?}", c.tamper))
     } else if let Some(v) = ee_viol {
         Some(v.into())
+    } else if let Some(v) = profile_viol {
+        Some(v)
     } else if !c.cov_ok {
         Some(format!("uncovered:{}", c.rel))
     } else if !crl_ok {
@@ -783,7 +849,7 @@ fn ee_base(key: usize, now_based: Option<i64>) -> EeSpec {
         Some(now) => (now - 30 * 86_400, now + 365 * 86_400),
         None => (T_NB, T_NA),
     };
-    EeSpec { key, signer: 0, aki: 0, trim: false, v4: Res::Missing, v6: Res::Missing, asn: Res::Missing, nb, na }
+    EeSpec { key, signer: 0, aki: 0, trim: false, v4: Res::Missing, v6: Res::Missing, asn: Res::Missing, nb, na, profile: 0 }
 }
 
 fn ee_inherit(key: usize, now_based: Option<i64>) -> EeSpec {
@@ -1142,6 +1208,22 @@ fn round_cases(w: &World, rng: &mut Rng, round: u64, rich: bool) -> Vec<Case> {
             let mut c = generic_case(rng, key, ct, T_IN);
             c.strict = total != 128;
             c.rel = format!("attrs-total-{}", total);
+            out.push(c);
+        }
+    }
+    // ---- EE certificates off the RFC 6487 profile, correctly signed by the CA, under every kind of object
+    for p in 1..EE_PROFILES.len() {
+        if !rich && (p as u64 + round) % 3 != 0 {
+            continue;
+        }
+        for (i, k) in KINDS.iter().enumerate() {
+            if !rich && (i as u64 + round + p as u64) % 2 != 0 {
+                continue;
+            }
+            let mut c = valid_of_kind(w, rng, *k, key, i + p);
+            c.ee.profile = p as u8;
+            c.strict = (p + i) % 2 == 0;
+            c.rel = format!("ee-profile:{}", EE_PROFILES[p]);
             out.push(c);
         }
     }
